@@ -4,9 +4,238 @@ Which of the objects a backtest receives are copies, read from the source text w
   demeter/core/backtest.py   `_start` (markets, data frames, nested cells), `BacktestManager.run` (dispatch)
   demeter/core/actuator.py   `Actuator.set_price` (price frame)
   demeter/deribit/helper.py  `get_new_order_list` (the market's own write path into order-book lists)
+and how `BacktestManager.run` treats a backtest that ends in an exception (in-process loop: caught per strategy or not; pooled
+branches: tasks collected with `.wait()` or fetched with `.get()`).
 A shape this script does not recognise is a ShapeError (treated like a broken correspondence); a recognised shape that
-copies less than today flips a flag, which breaks `C19_current_code_pinned` and everything proved from it."""
+copies less than today flips a flag, which breaks `C19_current_code_pinned` / `C19_failure_handling_pinned` and everything proved
+from them."""
 import ast
+
+# the functions that run one backtest: a call of one of them is where a failing backtest's exception comes out
+ENTRY = ("_start_with_param_data", "_start_with_global_data", "_start")
+CATCH_ALL = ("Exception", "BaseException")
+
+
+def _callee(call):
+    """name of the function / method a call goes to: f(…) -> f, self.f(…) / cls.f(…) / mod.f(…) -> f"""
+    f = call.func
+    return f.id if isinstance(f, ast.Name) else (f.attr if isinstance(f, ast.Attribute) else None)
+
+
+def _same_file_functions(tree):
+    """(module-level functions, methods of BacktestManager) by name: what a one-level refactor can move code into"""
+    mod, meth = {}, {}
+    for n in tree.body:
+        if isinstance(n, ast.FunctionDef):
+            mod.setdefault(n.name, n)
+        elif isinstance(n, ast.ClassDef) and n.name == "BacktestManager":
+            for m in n.body:
+                if isinstance(m, ast.FunctionDef):
+                    meth.setdefault(m.name, m)
+    return mod, meth
+
+
+def _local_def(call, funcs):
+    """the def in this file a call goes to — `f(…)` a module-level function, `self.f(…)` / `cls.f(…)` / `BacktestManager.f(…)` a
+    method — or None (a method of some other object that happens to have the same name is not followed)"""
+    mod, meth = funcs
+    f = call.func
+    if isinstance(f, ast.Name) and f.id not in ENTRY:
+        return mod.get(f.id)
+    if isinstance(f, ast.Attribute) and getattr(f.value, "id", None) in ("self", "cls", "BacktestManager") and f.attr not in ENTRY:
+        return meth.get(f.attr)
+    return None
+
+
+def _ends_control(stmts):
+    """a raise / return / break among the statements (not inside a nested def): control does not simply go on after them"""
+    todo = list(stmts)
+    while todo:
+        n = todo.pop()
+        if isinstance(n, (ast.Raise, ast.Return, ast.Break)):
+            return True
+        if isinstance(n, (ast.FunctionDef, ast.AsyncFunctionDef, ast.Lambda, ast.ClassDef)):
+            continue
+        todo.extend(ast.iter_child_nodes(n))
+    return False
+
+
+def _try_catches(t):
+    """`try` whose handlers take every `Exception` raised in its body and then let control go on: going through the handlers in
+    order, none of them (up to and including the first that catches Exception / BaseException / everything) raises, returns or
+    breaks, and neither does the `finally` block"""
+    if _ends_control(t.finalbody):
+        return False
+    for h in t.handlers:
+        if _ends_control(h.body):
+            return False
+        types = [] if h.type is None else (h.type.elts if isinstance(h.type, ast.Tuple) else [h.type])
+        if h.type is None or any(getattr(x, "id", getattr(x, "attr", None)) in CATCH_ALL for x in types):
+            return True
+    return False
+
+
+def _failure_points(stmts, is_point, funcs, depth, guarded=False, out=None):
+    """[(node, guarded)] for every place among the statements where an exception can come out that matters here — `is_point(call)`
+    calls and `raise` statements — with `guarded` = it sits in the body of a `try` that catches every Exception and goes on
+    (`_try_catches`).  Calls of functions of this file are followed `depth` levels (the guard of the call site carries over)."""
+    out = [] if out is None else out
+    for st in stmts:
+        _visit(st, is_point, funcs, depth, guarded, out)
+    return out
+
+
+def _visit(n, is_point, funcs, depth, guarded, out):
+    if isinstance(n, (ast.FunctionDef, ast.AsyncFunctionDef, ast.Lambda, ast.ClassDef)):
+        return        # a definition: nothing runs here
+    if isinstance(n, ast.Try):
+        inner = guarded or _try_catches(n)
+        _failure_points(n.body, is_point, funcs, depth, inner, out)
+        for h in n.handlers:
+            _failure_points(h.body, is_point, funcs, depth, guarded, out)
+        _failure_points(n.orelse, is_point, funcs, depth, guarded, out)      # `else:` is not covered by the handlers
+        _failure_points(n.finalbody, is_point, funcs, depth, guarded, out)
+        return
+    if isinstance(n, ast.Raise):
+        out.append((n, guarded))
+    if isinstance(n, ast.Call):
+        if is_point(n):
+            out.append((n, guarded))
+        elif depth > 0 and _local_def(n, funcs) is not None:
+            _failure_points(_local_def(n, funcs).body, is_point, funcs, depth - 1, guarded, out)
+    for c in ast.iter_child_nodes(n):
+        _visit(c, is_point, funcs, depth, guarded, out)
+
+
+def _reachable_bodies(fn, funcs):
+    """the function itself and the functions of this file it calls (one level): [(name, def)]"""
+    out, seen = [(fn.name, fn)], {fn.name}
+    for n in ast.walk(fn):
+        d = _local_def(n, funcs) if isinstance(n, ast.Call) else None
+        if d is not None and d.name not in seen:
+            seen.add(d.name)
+            out.append((d.name, d))
+    return out
+
+
+def _failure_flags(add, bt, find_func, ShapeError):
+    """(7) the in-process loop: is a failing backtest caught per strategy; (8), (9) the two pooled branches: are the tasks waited for"""
+    funcs = _same_file_functions(bt)
+    run = find_func(bt, "run", cls="BacktestManager")
+    bodies = _reachable_bodies(run, funcs)
+
+    def is_entry(call):
+        return _callee(call) in ENTRY
+
+    first_error = []
+    try:
+        _in_process_flag(add, bodies, funcs, is_entry, ShapeError)
+    except Exception as e:  # noqa: BLE001   (the pooled flags below are still extracted; re-raised at the end)
+        first_error.append(e)
+    _pool_flags(add, bodies, funcs, ShapeError)
+    if first_error:
+        raise first_error[0]
+
+
+def _in_process_flag(add, bodies, funcs, is_entry, ShapeError):
+    # ---- (7) `for strategy in self.strategies:` whose body runs a backtest itself (a call of an ENTRY function, directly or in a
+    #      function of this file called from the body) — the pooled loops only hand the function to apply_async
+    loops = []
+    for name, fn in bodies:
+        for n in ast.walk(fn):
+            if isinstance(n, ast.For) and "strategies" in ast.dump(n.iter):
+                pts = _failure_points(n.body, is_entry, funcs, 1)
+                if any(isinstance(p, ast.Call) for p, _ in pts):
+                    loops.append((name, n, pts))
+    if len(loops) != 1:
+        raise ShapeError(f"BacktestManager.run: expected exactly one in-process `for strategy in self.strategies` loop that runs a backtest, found {len(loops)}")
+    where, loop, pts = loops[0]
+    # the loop must go on after a caught failure: a break / return / raise in its own body (outside the handlers, which
+    # `_try_catches` has judged, and outside nested defs) is a shape this script does not judge
+    def loose_ends(stmts):
+        for st in stmts:
+            if isinstance(st, (ast.FunctionDef, ast.AsyncFunctionDef, ast.ClassDef)):
+                continue
+            if isinstance(st, (ast.Break, ast.Return)):
+                return True
+            if isinstance(st, ast.Try):
+                if loose_ends(st.body) or loose_ends(st.orelse) or any(loose_ends(h.body) for h in st.handlers if not _ends_control(h.body)):
+                    return True
+                continue
+            if isinstance(st, (ast.For, ast.While)):
+                if any(isinstance(x, ast.Return) for x in ast.walk(st)):
+                    return True
+                continue        # a break in there belongs to the inner loop
+            for field in ("body", "orelse", "finalbody"):
+                if loose_ends(getattr(st, field, []) or []):
+                    return True
+        return False
+    if loose_ends(loop.body) or loop.orelse:
+        raise ShapeError(f"{where}: the in-process strategy loop has a break / return / else of its own: cannot tell whether it goes on after a failing backtest")
+    caught = all(g for p, g in pts if isinstance(p, ast.Call))
+    if caught and any(not g for p, g in pts if isinstance(p, ast.Raise)):
+        # the backtest itself is guarded, but the loop (or the helper it calls) has a `raise` of its own outside the guard
+        raise ShapeError(f"{where}: the in-process strategy loop raises outside the `try` around the backtest: cannot tell whether it goes on")
+    add("managerCatchesInProcessFailure", "Bool", "true" if caught else "false",
+        "BacktestManager.run, in-process loop: the call that runs a backtest sits in a `try` whose handlers catch every Exception and "
+        "neither raise, return nor break (false: a failing backtest ends the loop, the strategies after it never run)")
+
+
+
+def _pool_flags(add, bodies, funcs, ShapeError):
+    # ---- (8), (9) every `with Pool(…) as pool:` block: the results of apply_async are collected inside the block, with `.wait()` (or
+    #      pool.close() + pool.join()); a `.get()` that is not inside a catching `try` re-raises the task's exception there,
+    #      and leaving the block terminates the workers
+    blocks = []
+    for name, fn in bodies:
+        for n in ast.walk(fn):
+            if isinstance(n, ast.With) and any(isinstance(i.context_expr, ast.Call) and _callee(i.context_expr) == "Pool" for i in n.items):
+                blocks.append((name, n))
+    if not blocks:
+        raise ShapeError("BacktestManager.run: no `with Pool(…)` block found")
+    # which branch a block belongs to is read off the function it hands to apply_async: `_start_with_global_data` (data inherited by
+    # fork) or `_start_with_param_data` (data pickled per task: the Windows branch)
+    BRANCH = {"_start_with_global_data": "fork", "_start_with_param_data": "args"}
+    waits = {}
+    for name, blk in blocks:
+        inside = [x for st in blk.body for x in ast.walk(st)]
+        submits = [n for n in inside if isinstance(n, ast.Assign) and isinstance(n.value, ast.Call) and _callee(n.value) == "apply_async"]
+        submitted = {t.id for n in submits for t in n.targets if isinstance(t, ast.Name)}
+        if not submitted:
+            raise ShapeError(f"{name}: a `with Pool` block without `<name> = pool.apply_async(…)`")
+        tasks_of = {getattr(n.value.args[0], "id", getattr(n.value.args[0], "attr", None)) if n.value.args else
+                    next((getattr(k.value, "id", None) for k in n.value.keywords if k.arg == "func"), None) for n in submits}
+        if len(tasks_of) != 1 or not tasks_of <= set(BRANCH):
+            raise ShapeError(f"{name}: a `with Pool` block whose apply_async does not name _start_with_global_data / _start_with_param_data: {sorted(map(str, tasks_of))}")
+        branch = BRANCH[tasks_of.pop()]
+        lists = {n.func.value.id for n in inside if isinstance(n, ast.Call) and _callee(n) == "append" and isinstance(n.func, ast.Attribute)
+                 and isinstance(n.func.value, ast.Name) and len(n.args) == 1 and getattr(n.args[0], "id", None) in submitted}
+        itervars = set()
+        for n in inside:
+            gens = n.generators if isinstance(n, (ast.ListComp, ast.GeneratorExp, ast.SetComp)) else ([n] if isinstance(n, ast.For) else [])
+            for g in gens:
+                if getattr(g.iter, "id", None) in lists and isinstance(g.target, ast.Name):
+                    itervars.add(g.target.id)
+        handles = submitted | itervars
+
+        def on_task(call, attr):
+            return isinstance(call.func, ast.Attribute) and call.func.attr == attr and getattr(call.func.value, "id", None) in handles
+        pool_names = {i.optional_vars.id for i in blk.items if isinstance(i.optional_vars, ast.Name)}
+        waited = any(isinstance(n, ast.Call) and on_task(n, "wait") for n in inside) or \
+            any(isinstance(n, ast.Call) and isinstance(n.func, ast.Attribute) and n.func.attr == "join"
+                and getattr(n.func.value, "id", None) in pool_names for n in inside)
+        gets = _failure_points(blk.body, lambda c: on_task(c, "get"), funcs, 0)
+        gets = [(p, g) for p, g in gets if isinstance(p, ast.Call)]
+        if not waited and not gets:
+            raise ShapeError(f"{name}: a `with Pool` block that neither waits for its tasks (.wait() / pool.join()) nor fetches them (.get())")
+        waits[branch] = waits.get(branch, True) and all(g for _, g in gets)
+    if set(waits) != {"fork", "args"}:
+        raise ShapeError(f"BacktestManager.run: expected a `with Pool` block for the forked branch and one for the Windows branch, found {sorted(waits)}")
+    for branch, lean, what in (("fork", "managerForkPoolWaitsForTasks", "forked pool (_start_with_global_data)"),
+                               ("args", "managerArgsPoolWaitsForTasks", "pool with the data as a task argument (_start_with_param_data, Windows)")):
+        add(lean, "Bool", "true" if waits[branch] else "false",
+            f"BacktestManager.run, {what}: the `with Pool` block waits for all its tasks (.wait() / join) and fetches none with an "
+            "unguarded .get() (false: the first failing task re-raises inside the block, whose exit terminates the other workers)")
 
 
 def _is_deepcopy_of(call, pred):
@@ -19,7 +248,7 @@ def _is_config_markets(n):
     return isinstance(n, ast.Attribute) and n.attr == "markets" and getattr(n.value, "id", "") == "config"
 
 
-def register(add, parse, find_func, const_int, rat_of, ShapeError, module_assign):
+def _copy_flags(add, parse, find_func, const_int, rat_of, ShapeError, module_assign):
     bt = parse("demeter/core/backtest.py")
     start = find_func(bt, "_start")
 
@@ -158,3 +387,21 @@ def register(add, parse, find_func, const_int, rat_of, ShapeError, module_assign
     pc = 0 if (top and top[-1] < keeps[0]) else (1 if anywhere else 2)
     add("actuatorPriceCopy", "Nat", str(pc),
         "Actuator.set_price keeps a new frame (prices.map(…)): 0 always, 1 only under a condition, 2 never (adopts the caller's frame)")
+
+
+def register(add, parse, find_func, const_int, rat_of, ShapeError, module_assign):
+    """the copy flags (1)-(6), then the failure flags (7)-(9); each group is extracted even if the other one does not find its shape
+    (the first ShapeError is re-raised at the end: the file is then STALE for the constants that are missing)"""
+    errors, late = [], []
+    try:
+        _failure_flags(lambda *a: late.append(a), parse("demeter/core/backtest.py"), find_func, ShapeError)
+    except Exception as e:  # noqa: BLE001
+        errors.append(e)
+    try:
+        _copy_flags(add, parse, find_func, const_int, rat_of, ShapeError, module_assign)
+    except Exception as e:  # noqa: BLE001
+        errors.append(e)
+    for a in late:
+        add(*a)
+    if errors:
+        raise errors[0]
